@@ -15,7 +15,11 @@ Givens == {"unset", "null", "value"}
 Fields == [dflt : DefaultKinds, nonnull : BOOLEAN, name : NameClasses]
 \* `T! = null` is not a valid schema
 ValidField(f) == ~(f.nonnull /\ f.dflt = "null")
-Required(f) == f.nonnull /\ f.dflt = "nodefault"
+\* fields without a default: of a built-in type ("nodefault"), of a custom scalar the configuration does not map (emitted as
+\* Any: "nodefault_unmapped"), of an enum / input-object type ("nodefault_enum", "nodefault_object")
+NoDefaultKinds == {"nodefault", "nodefault_unmapped", "nodefault_enum", "nodefault_object"}
+NoDefault(f) == f.dflt \in NoDefaultKinds
+Required(f) == f.nonnull /\ NoDefault(f)
 
 VARIABLES f, how, given, stage,
           model,      \* "built" | "rejected" : did constructing the model succeed?
@@ -36,7 +40,7 @@ Construct ==
 ReadBack ==
   /\ stage = "constructed" /\ model = "built" /\ stage' = "read"
   /\ readback' = CASE given = "value" -> "value" [] given = "null" -> "null"
-                   [] f.dflt = "nodefault" -> "null"
+                   [] NoDefault(f) -> "null"
                    [] f.dflt \in Deviations -> "wrong"
                    [] OTHER -> "default"
   /\ UNCHANGED <<f, how, given, model, dumped, server>>
@@ -48,7 +52,7 @@ Dump ==
 ServerCoerce ==
   /\ stage = "dumped" /\ stage' = "served"
   /\ server' = CASE dumped = "value" -> "value" [] dumped = "null" -> "null"
-                 [] f.dflt = "nodefault" -> "absent" [] OTHER -> "default"
+                 [] NoDefault(f) -> "absent" [] OTHER -> "default"
   /\ UNCHANGED <<f, how, given, model, readback, dumped>>
 Next == Construct \/ ReadBack \/ Dump \/ ServerCoerce
 Spec == Init /\ [][Next]_vars
@@ -58,9 +62,9 @@ Spec == Init /\ [][Next]_vars
 AcceptsCanonical == (stage # "start" /\ ~(given = "unset" /\ Required(f))) => model = "built"
 RejectsMissingRequired == (stage # "start" /\ given = "unset" /\ Required(f)) => model = "rejected"
 \* an instance created without the field reads back the coerced schema default
-DefaultReadsBack == (stage \in {"read", "dumped", "served"} /\ given = "unset" /\ f.dflt # "nodefault") => readback = "default"
+DefaultReadsBack == (stage \in {"read", "dumped", "served"} /\ given = "unset" /\ ~NoDefault(f)) => readback = "default"
 DefaultReadsBackK == DefaultReadsBack \/ f.dflt \in Deviations
 \* ... and the value the server finally sees equals that default
-ServerSeesDefault == (stage = "served" /\ given = "unset" /\ f.dflt # "nodefault") => server = "default"
+ServerSeesDefault == (stage = "served" /\ given = "unset" /\ ~NoDefault(f)) => server = "default"
 ServerSeesValue == (stage = "served" /\ given # "unset") => server = (IF given = "null" THEN "null" ELSE "value")
 =============================================================================
